@@ -312,10 +312,25 @@ def tie_cha(ctx):
                          f'max dev {np.abs(point - mix).max():.3g}, min lambda {lam.min():.3g}, sum {lam.sum()!r}')
 
 
+
+def _guarded_part(ctx, part, tie):
+    """robustness of the check: an exception escaping a tie / probe part (signature change, missing attribute, shape error in the
+    implementation …) is reported as a broken correspondence resp. as a failure with the traceback — the check never aborts (exit 2)"""
+    import traceback
+    try:
+        part(ctx)
+    except Exception as e:
+        tb = traceback.format_exc()[-1500:]
+        if tie:
+            ctx.disagree(f'%s %s (whole part)' % (ctx.pid, part.__name__), 'completes', f'raised {type(e).__name__}: {e}')
+            ctx.note(f'{part.__name__} raised: ' + tb)
+        else:
+            ctx.fail('probe-exception', f'{part.__name__} raised {type(e).__name__}: {e}', dict(op=part.__name__, traceback=tb))
+
+
 def correspondence(ctx):
-    tie_boundaries(ctx)
-    tie_interpolation(ctx)
-    tie_cha(ctx)
+    for part in (tie_boundaries, tie_interpolation, tie_cha):
+        _guarded_part(ctx, part, tie=True)
 
 
 # ---------------------------------------------------------------------------
@@ -615,8 +630,19 @@ def probe_inner_models(ctx):
         except Exception as e:
             ctx.count('cha-solver-raised-' + type(e).__name__); continue
         n_ok += 1
+        # the returned (ketA, ketB, lambda) is a separability certificate of the state on the ray: sum_i lambda_i |a_i b_i><a_i b_i| must
+        # reproduce hf_interpolate_dm(dm, beta) (complex target!), lambda >= 0, sum 1, unit kets (LP residual allowance LP_TOL)
+        cert = np.einsum(lam, [0], ka, [0, 1], ka.conj(), [0, 3], kb, [0, 2], kb.conj(), [0, 4], [1, 2, 3, 4]).reshape(N, N)
+        point = numqi.entangle.hf_interpolate_dm(dm, beta=beta)
+        dev = np.abs(cert - point).max()
+        if dev > LP_TOL or lam.min() < -LP_TOL or abs(lam.sum() - 1) > LP_TOL or np.abs(np.linalg.norm(ka, axis=1) - 1).max() > 1e-9 \
+                or np.abs(np.linalg.norm(kb, axis=1) - 1).max() > 1e-9:
+            ctx.fail('cha-certificate', f'CHABoundaryBagging.solve(return_info=True) on a complex {dA}x{dB} target: the returned product states and weights do not '
+                     f'reconstruct the state at beta={beta!r} (max deviation {dev:.3g}; deviation from its complex conjugate {np.abs(cert - point.conj()).max():.3g}; '
+                     f'min lambda {lam.min():.3g}, sum {lam.sum()!r})', dict(op='CHABoundaryBagging.solve', dim=[dA, dB], dm=_mat_replay(dm), seed=seed, maxiter=6))
+        else:
+            ctx.probe_ok(('cha-cert', trial))
         lam = np.maximum(lam, 0); lam = lam / lam.sum()
-        last_ok = True
         mix = np.einsum(lam, [0], ka, [0, 1], ka.conj(), [0, 3], kb, [0, 2], kb.conj(), [0, 4], [1, 2, 3, 4]).reshape(N, N)
         replay = dict(op='CHABoundaryBagging.solve', dim=[dA, dB], dm=_mat_replay(dm), seed=seed, maxiter=6)
         outer_tests(mix, dA, dB, 0 if ctx.quick() else 2, True, 'CHABoundaryBagging', replay, boson_only=True)
@@ -626,6 +652,251 @@ def probe_inner_models(ctx):
             ctx.fail('beta-order', f'beta_CHA={beta!r} beta_PPT={bppt!r} beta_DM={bdm!r} are not ordered', replay)
         else:
             ctx.probe_ok(('order-cha', trial))
+
+
+
+def probe_histories(ctx):
+    """objects with state must behave like fresh ones after any history of public calls: PureBosonicExt / AutodiffCHAREE used for an
+    expectation task and then for a target state (and back), get_boundary on a used object, CHABoundaryBagging solved twice"""
+    import numqi, torch
+    rng = np.random.default_rng(ctx.np_seed + 17)
+
+    def set_theta(m, theta):
+        numqi.optimize.set_model_flat_parameter(m, theta)
+
+    def fwd(m):
+        with torch.no_grad():
+            loss = m()
+        return float(loss), m.dm_torch.numpy().copy()
+    makers = [('PureBosonicExt(2,2,k=2)', lambda kind: numqi.entangle.PureBosonicExt(2, 2, kext=2, distance_kind=kind), 4),
+              ('PureBosonicExt(2,3,k=2)', lambda kind: numqi.entangle.PureBosonicExt(2, 3, kext=2, distance_kind=kind), 6),
+              ('AutodiffCHAREE(2,2)', lambda kind: numqi.entangle.AutodiffCHAREE((2, 2), distance_kind=kind), 4),
+              ('AutodiffCHAREE(2,3)', lambda kind: numqi.entangle.AutodiffCHAREE((2, 3), distance_kind=kind), 6)]
+    for name, mk, N in makers:
+        for kind in ('gellmann', 'ree'):
+            rho = rand_dm(rng, N)
+            op = rand_direction_state(rng, N) - np.eye(N) / N
+            replay = dict(op=name, distance_kind=kind, target=_mat_replay(rho), expectation_op=_mat_replay(op))
+            try:
+                fresh = mk(kind)
+                nth = numqi.optimize.get_model_flat_parameter(fresh).shape
+                theta = rng.normal(size=nth)
+                replay['theta'] = theta.tolist()
+                fresh.set_dm_target(rho); set_theta(fresh, theta)
+                loss_f, dm_f = fwd(fresh)
+                used = mk(kind)
+                used.set_expectation_op(op); set_theta(used, theta)
+                loss_e, dm_e = fwd(used)
+                used.set_dm_target(rho)
+                loss_u, dm_u = fwd(used)
+                used.set_expectation_op(op)
+                loss_e2, _ = fwd(used)
+                used.set_dm_target(rho); used.set_dm_target(rho)
+                loss_u2, _ = fwd(used)
+            except Exception as e:
+                ctx.fail('model-history', f'{name} ({kind}) raised {type(e).__name__}: {e} during expectation -> target -> expectation -> target', replay); continue
+            bad = []
+            want_e = float(np.trace(op @ dm_e).real)
+            if abs(loss_e - want_e) > 1e-10 or abs(loss_e2 - want_e) > 1e-10:
+                bad.append(f'expectation loss {loss_e!r}/{loss_e2!r} != Re tr(op rho) = {want_e!r}')
+            if kind == 'gellmann':
+                want = float(np.vdot(rho - dm_f, rho - dm_f).real / 2)
+                if abs(loss_f - want) > 1e-10:
+                    bad.append(f'fresh object: loss {loss_f!r} != Gell-Mann distance^2 {want!r}')
+            if np.abs(dm_u - dm_f).max() > 1e-12 or abs(loss_u - loss_f) > 1e-10 * max(1, abs(loss_f)) or abs(loss_u2 - loss_f) > 1e-10 * max(1, abs(loss_f)):
+                bad.append(f'after an expectation task the same parameters give loss {loss_u!r} / {loss_u2!r} instead of {loss_f!r} (fresh object)')
+            if bad:
+                ctx.fail('model-history', f'{name} ({kind}): ' + '; '.join(bad[:2]), replay)
+            else:
+                ctx.probe_ok(('hist', name, kind))
+    # get_boundary on a used object = get_boundary on a fresh one (same seed)
+    for name, mk, N, dims in [('PureBosonicExt(2,2,k=2)', lambda: numqi.entangle.PureBosonicExt(2, 2, kext=2, distance_kind='gellmann'), 4, (2, 2))] + \
+            ([] if ctx.quick() else [('AutodiffCHAREE(2,2)', lambda: numqi.entangle.AutodiffCHAREE((2, 2), distance_kind='gellmann'), 4, (2, 2))]):
+        rho = rand_dm(rng, N, rank=2)
+        op = rand_direction_state(rng, N) - np.eye(N) / N
+        replay = dict(op=name + '.get_boundary', target=_mat_replay(rho), expectation_op=_mat_replay(op), xtol=1e-2, seed=5)
+        try:
+            with contextlib.redirect_stdout(io.StringIO()):
+                b_fresh = float(mk().get_boundary(rho, xtol=1e-2, use_tqdm=False, seed=5))
+                used = mk()
+                used.set_expectation_op(op)
+                numqi.optimize.minimize(used, theta0='uniform', num_repeat=1, tol=1e-6, print_every_round=0, seed=3)
+                b_used = float(used.get_boundary(rho, xtol=1e-2, use_tqdm=False, seed=5))
+                b_again = float(used.get_boundary(rho, xtol=1e-2, use_tqdm=False, seed=5))
+        except Exception as e:
+            ctx.fail('model-history', f'{name}.get_boundary raised {type(e).__name__}: {e} (fresh / after an expectation task)', replay); continue
+        if abs(b_used - b_fresh) > 1e-9 or abs(b_again - b_fresh) > 1e-9:
+            ctx.fail('model-history', f'{name}.get_boundary: fresh object {b_fresh!r}, after set_expectation_op + minimize {b_used!r}, repeated {b_again!r}', replay)
+        else:
+            ctx.probe_ok(('hist-boundary', name))
+    # the LP model solved twice: second answer = answer of a fresh object
+    done = 0
+    for trial in range(10):
+        if done >= (1 if ctx.quick() else 3):
+            break
+        dm1, dm2 = rand_dm(rng, 4), rand_dm(rng, 4)
+        seed = int(rng.integers(1 << 30))
+        try:
+            with contextlib.redirect_stdout(io.StringIO()), contextlib.redirect_stderr(io.StringIO()):
+                b_fresh = float(numqi.entangle.CHABoundaryBagging((2, 2)).solve(dm2, maxiter=4, seed=seed))
+                m = numqi.entangle.CHABoundaryBagging((2, 2))
+                m.solve(dm1, maxiter=4, seed=seed + 1)
+                b_used = float(m.solve(dm2, maxiter=4, seed=seed))
+        except Exception as e:
+            ctx.count('cha-solver-raised-' + type(e).__name__); continue
+        done += 1
+        if abs(b_used - b_fresh) > LP_TOL:
+            ctx.fail('model-history', f'CHABoundaryBagging: second solve on a used object gives {b_used!r}, a fresh object {b_fresh!r}',
+                     dict(op='CHABoundaryBagging.solve twice', dm1=_mat_replay(dm1), dm2=_mat_replay(dm2), seed=seed, maxiter=4))
+        else:
+            ctx.probe_ok(('hist-cha', trial))
+
+
+
+# ---------------------------------------------------------------------------
+# hardening: aliasing / repeatability / dtype / layout / boundary inputs
+# ---------------------------------------------------------------------------
+def _snap(x):
+    if isinstance(x, np.ndarray):
+        return ('a', x.shape, str(x.dtype), x.tobytes())
+    if isinstance(x, (list, tuple)):
+        return ('l', tuple(_snap(y) for y in x))
+    return ('o', repr(x))
+
+
+def _same(a, b, tol=0.0):
+    if isinstance(a, (tuple, list)) and isinstance(b, (tuple, list)):
+        return len(a) == len(b) and all(_same(x, y, tol) for x, y in zip(a, b))
+    if isinstance(a, (str, bool, np.bool_)) or a is None:
+        return a == b
+    a, b = np.asarray(a), np.asarray(b)
+    if a.shape != b.shape:
+        return False
+    if a.size == 0:
+        return True
+    if tol == 0.0:
+        return bool(np.array_equal(a, b, equal_nan=True))
+    return bool(np.abs(a.astype(np.complex128) - b.astype(np.complex128)).max() <= tol * max(1.0, float(np.abs(b).max())))
+
+
+def hard_call(ctx, name, f, args, replay, kwargs=None, same=None):
+    """call `f(*args)` twice on the very same argument objects: arguments must be bit-identical afterwards (no in-place edit of the
+    caller's data), both results identical (`same`: comparison for routines built on ARPACK, whose start vector is random: equal up to 1e-9 /
+    equal support values); an exception becomes a failure with the input, never an abort"""
+    kwargs = kwargs or {}
+    before = [_snap(a) for a in args]
+    try:
+        r1 = f(*args, **kwargs)
+        mid = [_snap(a) for a in args]
+        r2 = f(*args, **kwargs)
+    except Exception as e:
+        ctx.fail('hardening-exception', f'{name} raised {type(e).__name__}: {e}', replay); return None
+    if mid != before or [_snap(a) for a in args] != before:
+        ctx.fail('aliasing', f'{name} modified an argument of the caller in place', replay); return None
+    if not (same or _same)(r1, r2):
+        ctx.fail('repeat-call', f'{name}: two calls on the same arguments give different results', replay); return None
+    ctx.probe_ok()
+    return r1
+
+
+def layouts(x):
+    """the same values as C-contiguous, Fortran-ordered and as a non-contiguous strided view"""
+    x = np.ascontiguousarray(x)
+    big = np.zeros(tuple(2 * n for n in x.shape), dtype=x.dtype)
+    big[tuple(slice(None, None, 2) for _ in x.shape)] = x
+    return [('C', x), ('F', np.asfortranarray(x)), ('strided-view', big[tuple(slice(None, None, 2) for _ in x.shape)])]
+
+
+def probe_hardening(ctx):
+    import numqi, torch
+    rng = np.random.default_rng(ctx.np_seed + 18)
+    B = numqi.entangle.get_density_matrix_boundary
+    P = numqi.entangle.get_ppt_boundary
+    I = numqi.entangle.hf_interpolate_dm
+    for dA, dB in DIMS[:2] if ctx.quick() else DIMS:
+        N = dA * dB
+        dm = rand_dm(rng, N)
+        rep0 = dict(dim=[dA, dB], dm=_mat_replay(dm))
+        base = hard_call(ctx, 'get_density_matrix_boundary', B, (dm,), dict(op='dmb', **rep0))
+        basep = hard_call(ctx, 'get_ppt_boundary', lambda x: P(x, (dA, dB)), (dm,), dict(op='pptb', **rep0))
+        basei = hard_call(ctx, 'hf_interpolate_dm', lambda x: I(x, beta=0.05), (dm,), dict(op='interp', **rep0))
+        hard_call(ctx, 'is_ppt', lambda x: bool(numqi.entangle.is_ppt(x, (dA, dB))), (dm,), dict(op='is_ppt', **rep0))
+        if base is None or basep is None or basei is None:
+            continue
+        for nm, a, tol in [(n_, x, 1e-12) for n_, x in layouts(dm)[1:]] + [('complex64', dm.astype(np.complex64), 1e-4), ('batch of one', dm[None], 1e-12)]:
+            replay = dict(op='boundary-variant', variant=nm, **rep0)
+            for fname, f, ref in (('get_density_matrix_boundary', B, base), ('get_ppt_boundary', lambda x: P(x, (dA, dB)), basep)):
+                r = hard_call(ctx, f'{fname}[{nm}]', f, (a,), replay)
+                if r is not None and not _same([np.asarray(x).reshape(-1) for x in r], [np.asarray(x).reshape(-1) for x in ref], tol):
+                    ctx.fail('hardening-variant', f'{fname} on the same state given as {nm}: {r} instead of {ref}', replay)
+            if nm != 'batch of one':
+                r = hard_call(ctx, f'hf_interpolate_dm[{nm}]', lambda x: I(x, beta=0.05), (a,), replay)
+                if r is not None and not _same(r, basei, tol):
+                    ctx.fail('hardening-variant', f'hf_interpolate_dm on the same state given as {nm} differs by {np.abs(np.asarray(r) - basei).max():.3g}', replay)
+        # real symmetric state as float64 / complex128 with zero imaginary part; integer pure state as int64 / float64
+        rs = (lambda a: a @ a.T)(rng.normal(size=(N, N))); rs = rs / np.trace(rs)
+        pure = np.zeros((N, N), dtype=np.int64); pure[0, 0] = 1
+        for nm, a, b in (('real float64 vs complex128 zero imag', rs, rs.astype(np.complex128)), ('int64 vs float64 pure state', pure, pure.astype(np.float64))):
+            replay = dict(op='boundary-dtype', variant=nm, dim=[dA, dB], dm=_mat_replay(np.asarray(a, dtype=float)))
+            for fname, f in (('get_density_matrix_boundary', B), ('get_ppt_boundary', lambda x: P(x, (dA, dB))), ('hf_interpolate_dm', lambda x: I(x, beta=0.05))):
+                ra = hard_call(ctx, f'{fname}[{nm}, first]', f, (a,), replay)
+                rb = hard_call(ctx, f'{fname}[{nm}, second]', f, (b,), replay)
+                if ra is not None and rb is not None and not _same(ra, rb, 1e-12):
+                    ctx.fail('hardening-variant', f'{fname}: {nm} give {ra} and {rb}', replay)
+        # near-degenerate spectra: two-sided threshold still exact
+        for gap in (0.0, 1e-12, 1e-8):
+            ev = np.array([0.4, 0.4 - gap] + [0.2 / (N - 2) + (gap if j == 0 else 0) for j in range(N - 2)]); ev = ev / ev.sum()
+            U = np.linalg.qr(rng.normal(size=(N, N)) + 1j * rng.normal(size=(N, N)))[0]
+            st = (U * ev) @ U.conj().T; st = (st + st.conj().T) / 2
+            replay = dict(op='boundary-threshold', spectrum=f'top eigenvalue pair with gap {gap}', dim=[dA, dB], dm=_mat_replay(st))
+            r = hard_call(ctx, f'get_density_matrix_boundary[gap {gap}]', B, (st,), replay)
+            rp = hard_call(ctx, f'get_ppt_boundary[gap {gap}]', lambda x: P(x, (dA, dB)), (st,), replay)
+            if r is None or rp is None:
+                continue
+            bad = _threshold_problems(st, dA, dB, None, float(r[0]), float(r[1]), 'dm') + _threshold_problems(st, dA, dB, None, float(rp[0]), float(rp[1]), 'ppt')
+            if bad:
+                ctx.fail('boundary-threshold', f'({dA},{dB}), near-degenerate spectrum (gap {gap}): ' + '; '.join(bad[:2]), replay)
+            else:
+                ctx.probe_ok(('degenerate', dA, dB, gap))
+        # exact end points of the interpolation: beta = 0 is the maximally mixed state, alpha = 1 the state itself, alpha = 0 the centre
+        for nm, got, want in (('beta=0', I(dm, beta=0.0), np.eye(N) / N), ('alpha=1', I(dm, alpha=1.0), dm), ('alpha=0', I(dm, alpha=0.0), np.eye(N) / N)):
+            if np.abs(got - want).max() > 1e-15:
+                ctx.fail('interpolate-distance', f'hf_interpolate_dm({nm}) is off by {np.abs(got - want).max():.3g}', dict(op='interp-endpoint', which=nm, **rep0))
+            else:
+                ctx.probe_ok(('endpoint', nm))
+    # model objects copy the caller's target: editing the caller's array afterwards must not change the model
+    for name, mk in (('PureBosonicExt', lambda: numqi.entangle.PureBosonicExt(2, 2, kext=2, distance_kind='gellmann')), ('AutodiffCHAREE', lambda: numqi.entangle.AutodiffCHAREE((2, 2), distance_kind='gellmann'))):
+        rho = rand_dm(rng, 4)
+        replay = dict(op=name + '.set_dm_target', target=_mat_replay(rho))
+        try:
+            m = mk(); snap = _snap(rho)
+            m.set_dm_target(rho)
+            theta = rng.normal(size=numqi.optimize.get_model_flat_parameter(m).shape)
+            numqi.optimize.set_model_flat_parameter(m, theta)
+            with torch.no_grad():
+                l0 = float(m())
+            if _snap(rho) != snap:
+                ctx.fail('aliasing', f'{name}.set_dm_target / forward modified the caller\'s target in place', replay); continue
+            rho2 = rho.copy(); rho *= 0
+            with torch.no_grad():
+                l1 = float(m())
+            rho[...] = rho2
+            if abs(l1 - l0) > 1e-14:
+                ctx.fail('aliasing', f'{name}: editing the caller\'s array after set_dm_target changes the loss ({l0!r} -> {l1!r}): the model shares memory with its input', replay)
+            else:
+                ctx.probe_ok(('target-copy', name))
+        except Exception as e:
+            ctx.fail('hardening-exception', f'{name} raised {type(e).__name__}: {e}', replay)
+    dm = rand_dm(rng, 4); snap = _snap(dm)
+    try:
+        with contextlib.redirect_stdout(io.StringIO()), contextlib.redirect_stderr(io.StringIO()):
+            numqi.entangle.CHABoundaryBagging((2, 2)).solve(dm, maxiter=2, seed=1)
+    except Exception as e:
+        ctx.count('cha-solver-raised-' + type(e).__name__)
+    if _snap(dm) != snap:
+        ctx.fail('aliasing', 'CHABoundaryBagging.solve modified the target density matrix in place', dict(op='cha-alias', dm=_mat_replay(dm)))
+    else:
+        ctx.probe_ok(('cha-alias',))
 
 
 def probe_cha_alive(ctx):
@@ -700,12 +971,8 @@ def probe_ordering(ctx):
 
 
 def probe(ctx):
-    probe_thresholds(ctx)
-    probe_batched(ctx)
-    probe_ray_invariance(ctx)
-    probe_inner_models(ctx)
-    probe_cha_alive(ctx)
-    probe_ordering(ctx)
+    for part in (probe_thresholds, probe_batched, probe_ray_invariance, probe_inner_models, probe_histories, probe_hardening, probe_cha_alive, probe_ordering):
+        _guarded_part(ctx, part, tie=False)
 
 
 def search(ctx, hints):
